@@ -39,7 +39,8 @@ var propSpecs = map[string]*PropSpec{
 	"C08": {ID: "C08", Pkgs: []string{"./benchproc"}},
 	"C09": {ID: "C09", Pkgs: []string{"./benchproc"}, BoundedChecks: []boundedSpec{
 		{"benchproc", "keyorder", "the documented per-field orders against reference semantics (incl. the fuzzy number parser, which is only under a determinism assumption), first-observation ranks of .config sub-fields, the flattened-field cache, and the order axioms / arrangement independence of SortKeys on concrete key sets"}}},
-	"C10": {ID: "C10", Pkgs: []string{"./benchunit"}},
+	"C10": {ID: "C10", Pkgs: []string{"./benchunit"}, BoundedChecks: []boundedSpec{
+		{"benchunit", "scale", "the half-unit accuracy and digit-count claims at every threshold (exact decimal arithmetic on the printed text), shared scales, unit classes and the no-op scale — the rounding of val/factor and strconv's fixed formatting are not modelled deductively"}}},
 	"C11": {ID: "C11", Pkgs: []string{"./internal/stats"}, BoundedChecks: []boundedSpec{
 		{"internal/stats", "utest", "U statistic, exact one- and two-sided p-values, PMF/CDF of the U distribution against brute-force enumeration of label assignments; mathChoose against big integers; the normal approximation evaluated independently; error cases — stands in for UDist.p / makeUmemo (combinatorial recurrences) and the rank-sum loop, which are outside deductive reach"}}},
 	"C12": {ID: "C12", Pkgs: []string{"./internal/stats"}},
@@ -124,6 +125,11 @@ func runProperty(repo, lib, prop, tier string) int {
 	}
 	evPath := filepath.Join(verifDir, "evidence", prop+".json")
 	os.MkdirAll(filepath.Join(verifDir, "evidence", "replay"), 0o755)
+	if old, _ := filepath.Glob(filepath.Join(verifDir, "evidence", "replay", prop+"-*")); len(old) > 0 {
+		for _, f := range old {
+			os.Remove(f) // replay files of earlier runs
+		}
+	}
 	if ps == nil {
 		fmt.Fprintf(os.Stderr, "property %s is not claimed (see MANIFEST.json not_applicable)\n", prop)
 		return 2
